@@ -2,7 +2,7 @@
 import ast
 import os
 
-from .ir import S
+from .ir import S, walk_stmts, walk_expr, stmt_exprs, sub_blocks
 
 INF = float('inf')
 
@@ -31,11 +31,18 @@ class PyFunc:
         self.decorators = [conv_expr(d) for d in node.decorator_list]
         self.doc = ast.get_docstring(node)
         self._body = None
+        self._raw = None
+
+    @property
+    def raw_body(self):
+        if self._raw is None:
+            self._raw = conv_block(self.node.body)
+        return self._raw
 
     @property
     def body(self):
         if self._body is None:
-            self._body = conv_block(self.node.body)
+            self._body = _expand_new_helpers(self)
         return self._body
 
     @property
@@ -44,6 +51,52 @@ class PyFunc:
 
     def __repr__(self):
         return 'PyFunc(%s.%s)' % (self.module.name, self.qual)
+
+
+def _expand_new_helpers(f):
+    """Body of f with the calls to same-module functions that are not part of the baseline tree expanded (see inline.py)."""
+    from . import inline
+    mod = f.module
+    base = inline.baseline().get(mod.name)
+    raw = f.raw_body
+    if base is None or all(q in base for q in mod.funcs):
+        return raw
+
+    def resolve(call):
+        c = call[1]
+        cand = []
+        self_arg = None
+        if c[0] == 'var':
+            scope = f.qual
+            while True:
+                cand.append(scope + '.<locals>.' + c[1])
+                if '.<locals>.' not in scope:
+                    break
+                scope = scope.rsplit('.<locals>.', 1)[0]
+            cand.append(c[1])
+        elif c[0] == 'attr' and c[1] in (('var', 'self'), ('var', 'cls')) and f.cls:
+            cand.append(f.cls + '.' + c[2])
+            self_arg = c[1]
+        elif c[0] == 'attr' and c[1][0] == 'var' and c[1][1] in mod.classes:
+            cand.append(c[1][1] + '.' + c[2])
+        for q in cand:
+            g = mod.funcs.get(q)
+            if g is None:
+                continue
+            if q in base or g is f or g.vararg or g.kwarg or g.decorators and not all(d == ('var', 'staticmethod') for d in g.decorators):
+                return None
+            if any(isinstance(x, (ast.Yield, ast.YieldFrom, ast.Nonlocal, ast.Global)) for x in ast.walk(g.node)):
+                return None
+            sa_ = self_arg
+            if sa_ is None and g.cls and c[0] == 'attr' and not g.decorators:
+                return None
+            return (q, g.args + g.kwonly, g.defaults, g.raw_body, sa_, None)
+        return None
+    ex = inline.Expander(resolve, 'py')
+    try:
+        return ex.block(raw)
+    except RecursionError:
+        return raw
 
 
 class PyModule:
@@ -187,6 +240,44 @@ def conv_block(stmts):
     out = []
     for n in stmts:
         out.extend(conv_stmt(n))
+    return _canon_counted_while(out)
+
+
+def _canon_counted_while(stmts):
+    """`v = lo` ... `while v < hi: body; v = v + 1`  ==>  the same counted `for` the range() form produces (no continue in the body, v assigned
+    nowhere else in it, nothing between the initialisation and the loop touches v): one loop form for all rules."""
+    out = list(stmts)
+    for k, w in enumerate(out):
+        if w.k != 'while' or w.d.get('orelse'):
+            continue
+        c = w.cond
+        if not (c[0] == 'bin' and c[1] == '<' and c[2][0] == 'var') or not w.body:
+            continue
+        v = c[2]
+        last = w.body[-1]
+        inc_ok = last.k == 'assign' and last.target == v and last.value in (('bin', '+', v, ('num', 1)), ('bin', '+', ('num', 1), v))
+        if not inc_ok:
+            continue
+        body = w.body[:-1]
+        if any(t.k == 'continue' for t in walk_stmts(body)) or any(t.k == 'assign' and (t.target == v or (t.target[0] == 'tuple' and v in t.target[1])) for t in walk_stmts(body)):
+            continue
+        if any(x == v for x in walk_expr(c[3])):
+            continue
+        # the initialisation: nearest preceding top-level assignment to v, with no statement in between that mentions v
+        init = None
+        for j in range(k - 1, -1, -1):
+            t = out[j]
+            if t.k == 'assign' and t.target == v:
+                init = j
+                break
+            if any(x == v for e in stmt_exprs(t) for x in walk_expr(e)) or sub_blocks(t):
+                break
+        if init is None:
+            continue
+        lo = out[init].value
+        out[k] = S('for', w.line, var=v[1], lo=lo, hi=c[3], step=None, body=body, inclusive=False, orelse=[], declares=False)
+        del out[init]
+        return _canon_counted_while(out)
     return out
 
 
